@@ -78,8 +78,12 @@ func (ctx *EntryContext) PutRt(rt uint64) {
 
 func (ctx *EntryContext) Rt() uint64 {
 	if ctx.rt == 0 {
-		rt := util.CurrentTimeMillis() - ctx.StartTime()
-		return rt
+		now := util.CurrentTimeMillis()
+		if now < ctx.StartTime() {
+			// the clock was set back since the entry started
+			return 0
+		}
+		return now - ctx.StartTime()
 	}
 	return ctx.rt
 }
